@@ -177,4 +177,33 @@ def r5_current_poller(ctx):
                "Pending exit #%d of Acquire::poll does not refresh the waker / task id: a release would wake a task that is no longer waiting" % i, loc=p.loc(s))
 
 
-RULES = [("C18.R1", r1_pairing), ("C18.R2", r2_single_writers), ("C18.R3", r3_cancel), ("C18.R4", r4_fair_admission), ("C18.R5", r5_current_poller)]
+def r6_grant_is_final(ctx):
+    """Permits handed to a queued waiter by `release` have left the pool.  The acquisition that owns them must complete with Ok (or give
+    them back in Drop, R3): it may report `closed` only after it has seen that it holds nothing.  Otherwise a close() between the grant
+    and the waiter's next poll makes the acquisition fail while its permits are gone for good (completed = true disarms the Drop)."""
+    prog = ctx.prog
+    p = ctx.body(POLL, "C18.R6")
+    errs = [s for s, t in p.calls() if any(c.endswith("AcquireError::closed") for c in p.callees_of_call(t, passed=False))]
+    loads = _calls_on_field(prog, p, HAS_P, re.compile(r"atomic::Atomic.*::load$"))
+    if not (ctx.floor("C18.R6", "AcquireError::closed() in Acquire::poll", len(errs), 1) and ctx.floor("C18.R6", "has_permits loads in Acquire::poll", len(loads), 1)):
+        return
+    not_granted_edges = set()
+    for s, t in loads:
+        br = kinds.bool_branch(p, s)
+        if br is None:
+            continue
+        tr, fl = br
+        for src in p.pred[fl]:
+            if p.term(src).get("k") == "switch":
+                not_granted_edges.add((src, fl))
+    ctx.floor("C18.R6", "branches on has_permits in Acquire::poll", len(not_granted_edges), 1)
+    for i, e in enumerate(errs):
+        w = p.path_exists(None, lambda x, e=e: x == e, edge_ok=lambda a, nb: (a, nb) not in not_granted_edges)
+        ctx.ob("C18.R6", "closed-only-if-nothing-granted|#%d" % i, w is None,
+               "Acquire::poll reports `closed` only on paths that took the `has_permits == false` edge" if w is None else
+               "Acquire::poll can report `closed` without having seen has_permits == false: a waiter that was already granted its permits fails, "
+               "marks itself completed, and the permits are neither held nor returned", loc=p.loc(e))
+
+
+RULES = [("C18.R1", r1_pairing), ("C18.R2", r2_single_writers), ("C18.R3", r3_cancel), ("C18.R4", r4_fair_admission), ("C18.R5", r5_current_poller),
+         ("C18.R6", r6_grant_is_final)]
